@@ -216,7 +216,7 @@ def ds_fd(ctx):
     if not is_ext_call(cat, 'jax.numpy.concatenate'):
       raise AnalysisError('_fd_update_root: SVD argument is not a concatenation')
     parts = cat.args[1][0]
-    ok4 = parts.op == 'list' and len(parts.args) == 2
+    ok4 = parts.op in ('list', 'tuple') and len(parts.args) == 2
     if ok4:
       hist, fresh = parts.args
       hs = strip_clamps(hist)
@@ -418,13 +418,16 @@ def tearfree_sketchy(ctx):
       ok4 = bool(cat)
       if ok4:
         parts = cat[0].args[1][0]
-        ok4 = parts.op == 'list' and len(parts.args) == 2
+        ok4 = parts.op in ('list', 'tuple') and len(parts.args) == 2
         if ok4:
           hist, fresh = parts.args
           exp_h = spec_term(ev, 'V * l[jnp.newaxis, :] * jnp.sqrt(beta)', {'V': sym('slot', 'eigvecs'), 'l': sym('slot', 'eigvals'), 'beta': beta})
-          exp_f = spec_term(ev, 'update.transpose([dim] + [i for i in range(update.ndim) if i != dim]).reshape(d, -1)',
-                            {'update': U, 'dim': sym('param', fi.short, 'dim'), 'd': d_t})
-          ok4 = cmpr.same(hist, exp_h) and cmpr.same(fresh, exp_f) and is_const(dict(cat[0].args[2]).get('axis', NONE), 1)
+          # the unfolding along `dim` (axis first, the others flattened in order) has two common spellings
+          env_f = {'update': U, 'dim': sym('param', fi.short, 'dim'), 'd': d_t}
+          exp_fs = [spec_term(ev, src_, env_f) for src_ in (
+              'update.transpose([dim] + [i for i in range(update.ndim) if i != dim]).reshape(d, -1)',
+              'jnp.reshape(jnp.moveaxis(update, dim, 0), (d, -1))')]
+          ok4 = cmpr.same(hist, exp_h) and any(cmpr.same(fresh, e_) for e_ in exp_fs) and is_const(dict(cat[0].args[2]).get('axis', NONE), 1)
       ctx.ob('C09.R4', fi.short, f'sketched matrix = [sqrt(b) V l, unfold(G)] {tag}', ok4,
              f'the factored matrix must be concatenate([V * l * sqrt(beta), gradient unfolded along `dim` (axis first, rest flattened)], axis=1); got `{show(S.args[1][0], maxdepth=6)[:240]}`',
              ctx.loc(fi), sample='[sqrt(b) V l, G_(dim)]')
